@@ -181,10 +181,14 @@ def run_property(prop, tier, seed, replay=None):
 
     # group failures by signature of the un-shrunk case first to bound the work
     done_sigs = set()
-    for c, f in failures[:400]:
+    shrunk = 0
+    for c, f in failures:
         pre = prop.signature(c, f)
         if pre in done_sigs:
             continue
+        if shrunk >= 25:
+            break
+        shrunk += 1
         small = shrink_failure(c, f["kind"])
         i2, m2 = rerun([small])
         f2 = (f if f["kind"] == "hang" else None) or prop.oracle(small, i2.get(small.cid, {}), m2.get(small.cid, {})) or f
